@@ -345,6 +345,17 @@ int main(int argc, char **argv)
         grammar_case("public <s> = a <undefined>;", 0, 1);
         grammar_case("public <s> = a | <undefined> b;", 0, 1);
         grammar_case("<s> = a b;", 0, 1);
+        {
+            /* the one-step readers: no public rule -> no FSG; a public rule among private ones -> that rule's language */
+            fsg_model_t *f = jsgf_read_string(HDR "<p> = a b;\n<q> = b;\n", lm, 1.0f);
+            lang_t got = 0;
+            cases++; distinct++;
+            if (f) { failf("jsgf_read_string compiles a grammar that has no public rule", "<p> = a b; <q> = b;"); fsg_model_free(f); }
+            f = jsgf_read_string(HDR "<p> = a b;\npublic <q> = b a;\n<r> = a;\n", lm, 1.0f);
+            cases++; distinct++;
+            if (!f) failf("jsgf_read_string refuses a grammar with a public rule", "<p> = a b; public <q> = b a; <r> = a;");
+            else { if (fsg_language(f, &got, NULL) == 0 && got != (1u << seq_cat(2, 1))) failf("jsgf_read_string compiles another rule than the public one", "<p> = a b; public <q> = b a; <r> = a;"); fsg_model_free(f); }
+        }
         grammar_case("public <s> = a [ b <s> ];", L_A | 1u << seq_cat(seq_cat(1, 2), 1), 0);
         grammar_case("public <s> = <p>;\n<p> = a <q> | b;\n<q> = b <p>;", L_B | 1u << seq_cat(seq_cat(1, 2), 2), 0);
         /* recursion through groups and optionals, over every depth-1 expression E */
